@@ -14,11 +14,12 @@ def closed_children(n: Tuple):
     return ir.children(n)
 
 
-def culprit(n: Tuple, disagree: Callable[[Tuple], bool], budget: int = 60) -> Tuple:
+def culprit(n: Tuple, disagree: Callable[[Tuple], bool], budget: int = 60, children_fn=None) -> Tuple:
     """Smallest sub-expression (all of whose closed children agree) on which `disagree` holds. Assumes disagree(n)."""
     cur = n
+    children_fn = children_fn or closed_children
     while budget > 0:
-        for c in closed_children(cur):
+        for c in children_fn(cur):
             budget -= 1
             try:
                 bad = disagree(c)
